@@ -102,8 +102,13 @@ package jsonrpc2
 //@   ensures @slot-given-back s.incoming == old(s.incoming) - 1
 
 // acceptRequest runs on the reader goroutine only; s.reading stays true until that goroutine's own exit action.
-//@ func (*Connection).acceptRequest$1 [C02]
+// Every message the reader accepts is counted as in flight, whatever becomes of it in this action (indexed, refused as a
+// duplicate id, refused because of shutdown): processResult gives the slot back exactly once for each of them, so an
+// uncounted message would let its processResult take the slot of a request that is still being handled (Close would
+// then return, and the transport be closed, while a handler is running).
+//@ func (*Connection).acceptRequest$1 [C02, C05]
 //@   assume s.reading
+//@   ensures @every-accepted-message-is-counted s.incoming == old(s.incoming) + 1
 //@ func (*Connection).acceptRequest$2 [C02]
 //@   assume s.reading
 
